@@ -51,6 +51,10 @@ func custodyDenoms(ss ...*Snap) []string {
 func (OracleC01) check(x *Exec, s *Snap, when string) {
 	pend := s.PendingUnbSum()
 	for _, d := range custodyDenoms(s) {
+		if x.PrecisionCollapsed(d) {
+			x.KnownFinding("F-C04a")
+			continue
+		}
 		want := new(big.Int)
 		if a, ok := s.Assets[d]; ok {
 			want.Add(want, a.TotalTokens.BigInt())
